@@ -25,7 +25,12 @@ for sid in ids:
         shutil.copy(os.path.join(d, 'seeded_demo.rs'), os.path.join(wt, 'tests', 'seeded_demo.rs'))
         if os.path.isdir(os.path.join(d, 'seeded_demo_cases')):
             shutil.copytree(os.path.join(d, 'seeded_demo_cases'), os.path.join(wt, 'tests', 'seeded_demo_cases'))
+        meta0 = json.load(open(os.path.join(d, 'meta.json')))
         feats = FEATS.get(sid, [])
+        if meta0.get('demo_features'):
+            fl = meta0['demo_features']
+            fl = [x for x in fl if not x.startswith('--')] if isinstance(fl, list) else [fl]
+            feats = ['--features', ','.join(fl)] if fl else []
         demo = ['cargo', 'test', '--offline', '--test', 'seeded_demo'] + feats + env_target
         rc0, out0 = run(demo, wt)
         res['demo_without_change'] = 'pass' if rc0 == 0 else 'FAIL'
